@@ -111,3 +111,35 @@ func VerifC06_Interface() {
 		vrt.Reach("err")
 	}
 }
+
+func init() { vrt.Register("VerifC06_TypedReads", VerifC06_TypedReads) }
+
+// VerifC06_TypedReads: the typed (descriptor-carrying) reads on N arbitrary bytes taken as a value of
+// S{1: list<i32> xs; 2: map<string,i32> m; 3: Inner in; 4: i32 z; 5: list<Inner> ins; 6: Inner opt}: lookups by
+// field id and by field NAME (one and two steps), FieldByName, Foreach.
+func VerifC06_TypedReads() {
+	b := vrt.Bytes(vrt.Param("N"))
+	v := NewValue(verifC04Schema(), b)
+	sane := func(got Value, label string) {
+		if !got.IsError() {
+			vrt.Assert(vrt.InBuf(got.Raw(), b), label)
+		}
+	}
+	switch vrt.Param("OP") {
+	case 0:
+		sane(v.GetByPath(NewPathFieldName("z")), "C06.typed.byname.in-buffer")
+		sane(v.FieldByName("xs"), "C06.typed.fieldbyname.in-buffer")
+	case 1:
+		sane(v.GetByPath(NewPathFieldName("in"), NewPathFieldName("b")), "C06.typed.byname.nested.in-buffer")
+		sane(v.GetByPath(NewPathFieldId(3), NewPathFieldId(2)), "C06.typed.byid.nested.in-buffer")
+	case 2:
+		sane(v.GetByPath(NewPathFieldName("m"), NewPathStrKey(string(vrt.Bytes(1)))), "C06.typed.byname.mapkey.in-buffer")
+		sane(v.GetByPath(NewPathFieldName("ins"), NewPathIndex(vrt.Int()), NewPathFieldName("a")), "C06.typed.byname.list-element.in-buffer")
+	case 3:
+		_ = v.Foreach(func(p Path, e Value) bool {
+			sane(e, "C06.typed.foreach.in-buffer")
+			return true
+		}, &Options{})
+	}
+	vrt.Reach("done")
+}
